@@ -93,7 +93,7 @@ def replay_states(states, seed, judge_name, tier):
             txns_abs = plain(st['txns']) if 'txns' in st else None
             mode = f['mode']
             variants = [EC.Variant(canonical=True)]
-            if mode == 'first_match':
+            if mode == 'first_match' or any('shape' in r for r in f['rules']):
                 variants.append(EC.Variant(rnd))
             for vi, v in enumerate(variants):
                 text = EC.file_text(f, v)
